@@ -441,6 +441,81 @@ theorem scope_write_implies_read (m : KeySet) :
     (∀ k, fullAccess k write = true → fullAccess k read = true) :=
   ⟨fun k h => (has_lattice ((m k).getD 0) 0 0 0).2.1 h, fun _ _ => rfl⟩
 
+/-- **an undeclared key is denied at every operation**: in a view scoped by the transaction's
+key set, a key that no action and not the sponsor declared cannot be read, written, created or
+deleted, and the attempts leave the view exactly as it was. -/
+theorem undeclared_key_denied (decls : List (List (Bytes × Perm))) (m : KeySet)
+    (h : stateKeys decls = some m) (k : Bytes) (hk : ∀ d ∈ decls.flatten, d.1 ≠ k)
+    (s : View) (hs : s.scope = m.has) (v : Val) :
+    s.get k = .perm ∧ s.insert k v = (s, .perm) ∧ s.remove k = (s, .perm) := by
+  have hu := undeclared_no_access decls m h k hk
+  have hr : s.scope k read = false := by rw [hs]; exact hu.1
+  have hw : s.scope k write = false := by rw [hs]; exact hu.2.1
+  refine ⟨?_, (no_write_no_effect s k v hw).1, (no_write_no_effect s k v hw).2⟩
+  simp [View.get, View.checkScope, hr]
+
+/-! ### several views on one `TState`
+
+The model's `View.ts` is the `TState` as it was when the view was opened, while the Go view
+holds a `*TState` and other views may commit to it while this one is open (parallel tasks in
+`chain/processor.go`). The executor (C08) never runs two tasks concurrently when one writes a
+key the other reads or writes; under that discipline the two theorems below show that the other
+view's commit is invisible to this view's outputs and that the order of the commits does not
+matter. -/
+
+/-- **another view's commit is invisible**: if view 1 can write no key that view 2 can read,
+then whatever view 1 did and committed, view 2's outputs on the resulting `TState` are those on
+the original one. -/
+theorem other_commit_invisible (ts : TS) (parent : KV) (sc1 sc2 : Key → Perm → Bool)
+    (hwr : ∀ k, sc2 k write = true → sc2 k read = true)
+    (hdis : ∀ k, sc1 k write = true → sc2 k read = false) (p1 p2 : List VOp) :
+    ((((ts.newView sc1 (stoOf parent)).run p1).1.commit.ts.newView sc2 (stoOf parent)).run p2).2 =
+      ((ts.newView sc2 (stoOf parent)).run p2).2 := by
+  apply confinement_reads _ _ parent parent sc2 hwr
+  intro k hr
+  have hw1 : sc1 k write = false := by
+    cases hw : sc1 k write
+    · rfl
+    · have := hdis k hw; rw [hr] at this; cases this
+  have := (confinement_writes ts parent sc1 p1 k hw1).2.2
+  simp only [underlying, this]
+
+/-- **commits of views with disjoint write scopes commute**: two views opened on the same
+`TState`, neither able to write a key the other can write; committing one and then the other
+(each onto the `TState` the other left, as the shared `*TState` does) gives the same block-level
+map and op count in either order. -/
+theorem commits_commute (ts : TS) (parent : KV) (sc1 sc2 : Key → Perm → Bool)
+    (hdis : ∀ k, sc1 k write = true → sc2 k write = false) (p1 p2 : List VOp) :
+    let s1 := ((ts.newView sc1 (stoOf parent)).run p1).1
+    let s2 := ((ts.newView sc2 (stoOf parent)).run p2).1
+    (∀ k, ({ s2 with ts := s1.commit.ts }).commit.ts.changedKeys k =
+          ({ s1 with ts := s2.commit.ts }).commit.ts.changedKeys k) ∧
+    ({ s2 with ts := s1.commit.ts }).commit.ts.ops = ({ s1 with ts := s2.commit.ts }).commit.ts.ops := by
+  intro s1 s2
+  constructor
+  · intro k
+    show (match s2.pendingChangedKeys k with
+          | some v => some v
+          | none => match s1.pendingChangedKeys k with | some v => some v | none => s1.ts.changedKeys k) =
+         (match s1.pendingChangedKeys k with
+          | some v => some v
+          | none => match s2.pendingChangedKeys k with | some v => some v | none => s2.ts.changedKeys k)
+    have f1 : s1.ts = ts := (run_refines p1 (rel_init ts sc1 parent)).2.2.1
+    have f2 : s2.ts = ts := (run_refines p2 (rel_init ts sc2 parent)).2.2.1
+    rw [f1, f2]
+    cases hw1 : sc1 k write
+    · have := (confinement_writes ts parent sc1 p1 k hw1).1
+      have e1 : s1.pendingChangedKeys k = none := this
+      rw [e1]
+    · have hw2 := hdis k hw1
+      have := (confinement_writes ts parent sc2 p2 k hw2).1
+      have e2 : s2.pendingChangedKeys k = none := this
+      rw [e2]
+  · have f1 : s1.ts = ts := (run_refines p1 (rel_init ts sc1 parent)).2.2.1
+    have f2 : s2.ts = ts := (run_refines p2 (rel_init ts sc2 parent)).2.2.1
+    simp only [View.commit, f1, f2]
+    omega
+
 /-! ### non-vacuity -/
 example : has write read = true ∧ has allocate read = true ∧ has all write = true ∧
     has read write = false ∧ has (read ||| 4) write = true := by decide
